@@ -31,6 +31,14 @@ CHECKS = {
    note='Trusted: z3, vfsem denotational semantics (own code, chain rule via abstract inverse Jacobian), builtin functions uninterpreted, '
         'reals for doubles except constant-only subexpressions. Undecided programs (solver timeout) are listed, not counted.',
    technique='translation validation per program with z3 (QF_NRA+UF) over a denotational semantics'),
+ 'C13': dict(
+   category='translation_validation', design_ref='4/C13',
+   text='Non-interference of the compile-cache key: the real hashing code of vform.py and the key construction of compile.py run with an '
+        'injective hash model; one token-bearing attribute of a real form is made symbolic (L, then L\') and z3 decides L != L\' /\\ key(L) = key(L\'). '
+        'unsat = the token separates cache entries for all values; sat = the key ignores it, then the admissible concrete values are decided against '
+        'the real compile.generate (equal vf.hash(), different text = violation). Freshness: generator output today vs shipped assemblers.pyx/genericasm.pxi (byte comparison).',
+   note='Trusted: ideal (collision-free) hash model, z3, token templates (25 token kinds x contexts); freshness comparison is textual, not solver-decided.',
+   technique='non-interference query over real hashing code with injective hash model (z3) + ground truth via real code generator'),
 }
 
 NA = {
